@@ -15,7 +15,9 @@
              connects]
    events   [e |-> "start", kind, ver, crc, cached, resend]
             [e |-> "devreply" | "dup" | "timeout", kind, ch, d]
-            [e |-> "rx", kind, ch, d, st : [fstate, cb, reqIdx, nItems, ntoc, done, xcount]]
+            [e |-> "rx", kind, ch, d, st : [lt, fstate, cb, reqIdx, nItems, ntoc, done, xcount]]
+            (ch 1 = the log RESET command and its reply; "start" of the log download = Log.refresh_toc;
+             cached = "none" | "own" | "old" | "extra" | "broken": what the harness put under the table's checksum)
             [e |-> "extsend", kind, id]
             [e |-> "connected" | "end", log, param : library tables, lklog, lkparam : lookups]  *)
 EXTENDS Naturals, Sequences, FiniteSets, Bags, TLC, Json, IOUtils
@@ -25,7 +27,7 @@ Traces == JsonDeserialize(IOEnv.TRACE_FILE)
 VARIABLES tid, l,
           bad, badAt, wit, nconn,          \* monitor
           conf, confAt,                    \* conformance verdict
-          cfg, fstate, cbOn, reqIdx, nItems, toc, pend, up, down, budget,
+          cfg, lt, fstate, cbOn, reqIdx, nItems, toc, pend, up, down, budget,
           xstate, xcount, xreq, xqueue, xlock, done, doneSnap       \* design-spec variables
 
 Configs == {}             \* Start(c) is driven by the "start" events
@@ -36,7 +38,7 @@ Bug == "none"
 D == INSTANCE TocFetch
 P == INSTANCE TocFetchProps
 
-specvars == <<cfg, fstate, cbOn, reqIdx, nItems, toc, pend, up, down, budget,
+specvars == <<cfg, lt, fstate, cbOn, reqIdx, nItems, toc, pend, up, down, budget,
               xstate, xcount, xreq, xqueue, xlock, done, doneSnap>>
 T == Traces[tid]
 Ev == T.ev[l]
@@ -72,7 +74,7 @@ ETimeout == /\ Ev.e = "timeout" /\ Quiet
             /\ ConformMine(D!Timeout(Pk))
 ERx == /\ Ev.e = "rx" /\ Quiet
        /\ ConformMine(/\ D!Deliver(Pk)
-                      /\ fstate' = Ev.st.fstate /\ cbOn' = Ev.st.cb
+                      /\ lt' = Ev.st.lt /\ fstate' = Ev.st.fstate /\ cbOn' = Ev.st.cb
                       /\ reqIdx' = Ev.st.reqIdx /\ nItems' = Ev.st.nItems
                       /\ Len(toc') = Ev.st.ntoc /\ done' = Ev.st.done /\ xcount' = Ev.st.xcount)
 EExtSend == /\ Ev.e = "extsend" /\ Quiet
